@@ -97,45 +97,43 @@ theorem shareAmount_le (npc : Bool) (c : Cand) (nodeAmount amount : Nat)
   have hsc' := normStakeCost_le c.peerCost c.stakeCost hpc hsc
   simp only at h
   split at h
-  · split at h
-    · split at h
-      · cases h
-        rw [hsub c.peerCost hpc]
-        exact pct_le _ _
-      · cases h
-    · cases h
-      generalize normStakeCost c.peerCost c.stakeCost = sc at hsc' ⊢
-      have hsf : u64 (nodeAmount * c.totalPos / (c.initPos + c.totalPos)) ≤ nodeAmount := by
-        apply Nat.le_trans (u64_le _)
+  · cases h
+    generalize normStakeCost c.peerCost c.stakeCost = sc at hsc' ⊢
+    have hsf : (if c.initPos + c.totalPos = 0 then 0 else u64 (nodeAmount * c.totalPos / (c.initPos + c.totalPos)))
+        ≤ nodeAmount := by
+      split
+      · omega
+      · apply Nat.le_trans (u64_le _)
         apply Nat.div_le_of_le_mul
         rw [Nat.mul_comm (c.initPos + c.totalPos)]
         apply Nat.mul_le_mul_left; omega
-      generalize u64 (nodeAmount * c.totalPos / (c.initPos + c.totalPos)) = stakeFee at hsf ⊢
-      rw [u64sub_exact hsf hn, hsub sc hsc', hsub c.peerCost hpc]
-      have t1 := pct_le stakeFee sc
-      have t2 := pct_le (nodeAmount - stakeFee) c.peerCost
-      apply Nat.le_trans (u64_le _)
-      omega
+    generalize (if c.initPos + c.totalPos = 0 then 0 else u64 (nodeAmount * c.totalPos / (c.initPos + c.totalPos)))
+      = stakeFee at hsf ⊢
+    rw [u64sub_exact hsf hn, hsub sc hsc', hsub c.peerCost hpc]
+    have t1 := pct_le stakeFee sc
+    have t2 := pct_le (nodeAmount - stakeFee) c.peerCost
+    apply Nat.le_trans (u64_le _)
+    omega
   · cases h
     rw [hsub c.peerCost hpc]
     exact pct_le _ _
 
 theorem candOK_unfold (c : Cand) (h : candOK c = true) :
     ∃ cur, c.curCons = some cur ∧ validSum c.owner (validList (cur || c.preCons) c.auths) ≤ c.totalPos ∧ c.peerCost ≤ 100 ∧
-      c.stakeCost ≤ 101 ∧ 0 < c.initPos + c.totalPos ∧ c.stake ≤ 10000000000 := by
+      c.stakeCost ≤ 101 ∧ c.stake ≤ 10000000000 := by
   unfold candOK at h
   split at h
   · cases h
   · rename_i cur hc
     simp only [Bool.and_eq_true, decide_eq_true_eq] at h
-    exact ⟨cur, hc, h.1.1.1.1, h.1.1.1.2, h.1.1.2, h.1.2, h.2⟩
+    exact ⟨cur, hc, h.1.1.1, h.1.1.2, h.1.2, h.2⟩
 
 /-- one node: the credits add up to exactly the node's amount (the owner's remainder `nodeAmount - sumAmount` does not
 underflow) -/
 theorem splitNodeFee_sum (npc ex : Bool) (c : Cand) (nodeAmount : Nat) (cr : List (Nat × Nat))
     (h : splitNodeFee npc ex c nodeAmount = .ok cr) (hc : candOK c = true) (hn : nodeAmount < two64) :
     csum cr = nodeAmount := by
-  obtain ⟨cur, hcur, hv, hpc, hsc, _, _⟩ := candOK_unfold c hc
+  obtain ⟨cur, hcur, hv, hpc, hsc, _⟩ := candOK_unfold c hc
   unfold splitNodeFee at h
   rw [hcur] at h
   simp only at h
@@ -340,7 +338,7 @@ theorem split2Cands_bound (e : SplitEnv) (ni : Nat) (cr1 cr : List (Nat × Nat))
       obtain ⟨d1, d2⟩ := splitNodes_bound _ _ _ _ _ _ _ _ hn2 (fun c hc => hall c (candRest_mem e c hc))
       have hst : ∀ c ∈ candRest e, c.stake ≤ 10000000000 := by
         intro c hc
-        obtain ⟨_, _, _, _, _, _, hs⟩ := candOK_unfold c (hall c (candRest_mem e c hc))
+        obtain ⟨_, _, _, _, _, hs⟩ := candOK_unfold c (hall c (candRest_mem e c hc))
         exact hs
       have hw2 : wsum ((candRest e).map (·.stake)) < two64 := by
         have h1 := wsum_stakes_le (candRest e) hst
